@@ -348,9 +348,69 @@ class Index:
         return f'{path}:{int(getattr(node, "lineno", 0) or 0)} {fn}'
 
 
+_FLIP = {ast.Gt: ast.Lt, ast.GtE: ast.LtE}
+_NEG = {ast.In: ast.NotIn, ast.NotIn: ast.In, ast.Is: ast.IsNot,
+        ast.IsNot: ast.Is, ast.Eq: ast.NotEq, ast.NotEq: ast.Eq}
+
+
+class _Canon(ast.NodeTransformer):
+    """Canonical spelling of equivalent boolean forms, so that textual
+    comparison of normalised nodes does not depend on which one the source
+    uses: `b > a` -> `a < b`, `b >= a` -> `a <= b`; `not x in s` -> `x not in
+    s`, `not x is y` -> `x is not y`, `not a == b` -> `a != b`; `not not a`
+    -> `a`; `not (a or b)` -> `not a and not b`, `not (a and b)` -> `not a or
+    not b`."""
+
+    def visit_Compare(self, node):
+        self.generic_visit(node)
+        if len(node.ops) == 1 and type(node.ops[0]) in _FLIP:
+            return ast.Compare(left=node.comparators[0],
+                               ops=[_FLIP[type(node.ops[0])]()],
+                               comparators=[node.left])
+        return node
+
+    def visit_UnaryOp(self, node):
+        if not isinstance(node.op, ast.Not):
+            return self.generic_visit(node)
+        x = node.operand
+        if isinstance(x, ast.UnaryOp) and isinstance(x.op, ast.Not):
+            return self.visit(x.operand)
+        if isinstance(x, ast.Compare) and len(x.ops) == 1 and type(
+                x.ops[0]) in _NEG:
+            return self.visit(ast.Compare(
+                left=x.left, ops=[_NEG[type(x.ops[0])]()],
+                comparators=x.comparators))
+        if isinstance(x, ast.BoolOp):
+            op = ast.And() if isinstance(x.op, ast.Or) else ast.Or()
+            return self.visit(ast.BoolOp(op=op, values=[
+                ast.UnaryOp(op=ast.Not(), operand=v) for v in x.values]))
+        return self.generic_visit(node)
+
+
+_NORM_CACHE: Dict[int, Tuple[ast.AST, str]] = {}
+
+
 def norm(node) -> str:
-    """Normalised text of a node (position independent)."""
+    """Normalised text of a node: position independent, and canonical for
+    the equivalent boolean spellings listed in _Canon."""
+    hit = _NORM_CACHE.get(id(node))
+    if hit is not None and hit[0] is node:
+        return hit[1]
     try:
-        return ast.unparse(node)
+        s = ast.unparse(node)
+        if ' > ' in s or ' >= ' in s or 'not ' in s:
+            import copy
+            s = ast.unparse(_Canon().visit(copy.deepcopy(node)))
     except Exception:
-        return ast.dump(node)
+        s = ast.dump(node)
+    if isinstance(node, ast.AST):
+        _NORM_CACHE[id(node)] = (node, s)
+    return s
+
+
+def canon(text: str) -> str:
+    """Canonical spelling of an expression / statement given as text (for
+    literals in rules that are compared with norm())."""
+    return norm(ast.parse(text).body[0] if '\n' in text or '=' in text.replace(
+        '==', '').replace('!=', '').replace('<=', '').replace('>=', '')
+        else ast.parse(text, mode='eval').body)
